@@ -2,7 +2,7 @@
     and correspondence of Geom/Scale.v, Geom/Rotate.v with it ([corr_ok]).
     Imports only models and definitions (never a proof file). *)
 From Coq Require Import List ZArith Bool PrimFloat.
-From CGV Require Import Base.PyBase Geom.Num Gen.GeomGen Geom.IndexMap Geom.Scale Geom.Rotate.
+From CGV Require Import Base.PyBase Geom.Num Gen.GeomGen Geom.IndexMap Geom.Scale Geom.Rotate Geom.CisTrans.
 Import ListNotations.
 Open Scope Z_scope.
 
@@ -45,7 +45,22 @@ Inductive case :=
        (comps : list (list Z))                          (* nx.connected_components transcript (yield order) *)
        (exc : nat)
        (pre post : list (Z * fvec2))
+| CFix (edges : list (Z * Z)) (items : list ezitem)   (* flattened ez_isomer items, dict order; lt14 = Python's n1 < n4 *)
+       (closes : list bool)                          (* np.isclose results, call order (transcript) *)
+       (comps_tr : list (list (list Z)))             (* nx.connected_components results, one per rotate_subgraph call *)
+       (exc : nat)
+       (calls : list (Z * Z * Z))                    (* recorded rotate_subgraph calls: anchor, target, angle *)
+       (pre post : list (Z * fvec2))
 | CSkip.
+
+Definition call_contract_b (edges : list (Z * Z)) (c : call) : bool :=
+  let '(a, t, _, comp) := c in comp_contract edges a t comp.
+Fixpoint calls_eqb (a : list call) (b : list (Z * Z * Z)) : bool :=
+  match a, b with
+  | [], [] => true
+  | (x, y, z, _) :: a', (x', y', z') :: b' => Z.eqb x x' && Z.eqb y y' && Z.eqb z z' && calls_eqb a' b'
+  | _, _ => false
+  end.
 
 Definition corr_ok (c : case) : bool :=
   match c with
@@ -58,6 +73,16 @@ Definition corr_ok (c : case) : bool :=
       | Ok (comp, _) => Nat.eqb exc 0 && comp_contract edges anchor target comp &&
                         forallb (fun kp => zmem (fst kp) comp || v2eqb (snd kp) (posf post (fst kp))) pre &&
                         Nat.eqb (length pre) (length post)
+      | Err ELookup => Nat.eqb exc 1
+      | Err _ => false
+      end
+  | CFix edges items closes comps_tr exc calls pre post =>
+      match check_and_fix_cis_trans (fun _ _ _ _ p => p) edges items closes comps_tr (posf pre) with
+      | Ok (_, trace) =>
+          Nat.eqb exc 0 && calls_eqb trace calls && forallb (call_contract_b edges) trace &&
+          (* a node that is in no rotated component keeps its position bit for bit *)
+          forallb (fun kp => existsb (fun c => zmem (fst kp) (snd c)) trace || v2eqb (snd kp) (posf post (fst kp))) pre &&
+          Nat.eqb (length pre) (length post)
       | Err ELookup => Nat.eqb exc 1
       | Err _ => false
       end
@@ -80,6 +105,12 @@ Definition prop_fail (c : case) : nat :=
            if negb (PrimFloat.leb (fabs (m - db)) (rel9 * fabs db))%float then 5%nat
            else 0%nat
   | CRot edges anchor target comps exc pre post =>
+      if negb (Nat.eqb exc 0) then 6%nat
+      else if negb (forallb (fun kp => ffinite (fst (snd kp)) && ffinite (snd (snd kp))) post) then 7%nat
+      else if negb (forallb (fun e => let a := flen pre e in let b := flen post e in
+                                      PrimFloat.leb (fabs (a - b)) (rel9 * (1 + a)))%float edges) then 8%nat
+      else 0%nat
+  | CFix edges _ _ _ exc _ pre post =>
       if negb (Nat.eqb exc 0) then 6%nat
       else if negb (forallb (fun kp => ffinite (fst (snd kp)) && ffinite (snd (snd kp))) post) then 7%nat
       else if negb (forallb (fun e => let a := flen pre e in let b := flen post e in
